@@ -734,3 +734,5 @@ PROPS["C17"]["ties"] = PROPS["C17"]["ties"] + ["Failsafe.Props.C09"]
 PROPS["C17"]["required_theorems"] += ["Failsafe.Props.C17." + t for t in ["launched_step", "launched_counts_hedge_events", "settled_attempts_eq_hedge_events"]]
 
 PROPS["C09"]["required_theorems"] += ["Failsafe.Props.C09." + t for t in ["step_core", "after_return_step", "cancOk_step", "reach_cancOk", "after_return_run", "readings_after_return_on_traces"]]
+
+PROPS["C17"]["required_theorems"] += ["Failsafe.Props.C17." + t for t in ["core_n", "hedge_events_le_maxHedges"]]
